@@ -209,7 +209,8 @@ def runCase (args : List String) : IO String := do
               let logs := expectedLogs lt combf cfg lazyMem blocks counts rs
               let ocbc := if cbc = 1 then 2 else cbc
               let cap := if mode = "blocking" then blockSize / rs else (max cmem (rs * ocbc)) / (ocbc * rs)
-              let ob := if mode = "steal" then "-" else expectedOutBlocks lt combf cfg lazyMem blocks ho.n cap rs
+              let ob := if mode = "steal" then rleStr ((preadBlocks cap ho.n).map (· * rs))
+                        else expectedOutBlocks lt combf cfg lazyMem blocks ho.n cap rs
               let lstr := logsStr logs
               let (l1, l2) := match lstr.splitOn " logshow=" with
                 | [a, b] => (a, b)
